@@ -437,3 +437,48 @@ def gz_exact(target, data):
         if len(out) == target:
             return data[:n], out
     return None
+
+
+class HugeB64:
+    """base64_encode / base64_decode on texts of 2^31 bytes and more (the sizes at which 32-bit counters wrap), in the in-process harness
+    on lazily committed mappings; judged through the theorems encode_length / encode_window / encode_tail / decode_rejects_foreign
+    (PV.Props.C09), which say what the answer must be for a text of any length.  The encoder really produces 2.9 GB (about 40 s under
+    the sanitizers), so the run is started in the background with `start` and collected with `finish`."""
+
+    def __init__(self, ctx):
+        import threading
+        self.ctx = ctx
+        big = [(1 << 31) + 5] if ctx.tier == "quick" else [(1 << 31) - 1, 1 << 31, (1 << 31) + 5, (1 << 32) + 2]
+        self.ops = [f"b64.enchuge {n} 0,3,1048572,2097144,{(n - 12) // 3 * 3}" for n in big]
+        self.ops += [f"b64.dechuge {n} {pre}" for n in (1 << 31, (1 << 31) + 3, (1 << 32) + 1, 3 << 31) for pre in ("-", "51554a44")]
+        self.out = None
+        self.thread = threading.Thread(target=self._run, daemon=True)
+
+    def _run(self):
+        try:
+            self.out = run_lines(self.ctx.impl(), self.ops, env=san_env(), timeout=1500, stall=1500)
+        except Exception as e:      # reported by finish
+            self.out = e
+
+    def start(self):
+        self.thread.start()
+        return self
+
+    def finish(self, key_prefix):
+        self.thread.join()
+        ctx = self.ctx
+        if isinstance(self.out, Exception):
+            raise self.out
+        model = run_lines(PVDRIVER, self.ops)
+        ctx.count("b64.huge", len(self.ops), self.ops)
+        ctx.cov["b64_huge_skipped"] = sum(1 for x in self.out if x.startswith("skipped"))
+        for o, x, m in zip(self.ops, self.out, model):
+            if x == m or x.startswith("skipped"):
+                continue
+            n = int(o.split()[1])
+            what = "base64_encode" if "enchuge" in o else "base64_decode"
+            report_violation(ctx, f"{key_prefix}:{o}", {"ops": [o], "impl": x[:400], "required": m[:400],
+                             "text": f"{n} bytes = 2^31*{n >> 31} + {n & 0x7fffffff}: " + ("NUL bytes with a marker byte every 1048573 bytes" if "enchuge" in o else "the prefix followed by NUL bytes"),
+                             "theorems": "encode_length, encode_window, encode_tail" if "enchuge" in o else "decode_rejects_foreign"},
+                             summary=f"{what} on a text of {n} bytes (2^31*{n >> 31} + {n & 0x7fffffff}): {x[:70]}; required {m[:70]}")
+            break
